@@ -122,6 +122,10 @@ type rewriter struct {
 	// anonymous structs split and &-* pairs cancelled (the pinned code is left as
 	// it is; splitting a struct type the baseline does not have is done anywhere)
 	touched bool
+	// sinks: one flag per statement group that was moved into another statement's
+	// generator; set when that generator ran. A group whose generator never ran was
+	// dropped by a colliding rewrite: the file's stage is abandoned then.
+	sinks []*bool
 }
 
 func (rw *rewriter) off(pos token.Pos) int { return rw.p.Fset.Position(pos).Offset }
@@ -209,6 +213,16 @@ func dissolveNewStructs(p *Program) (map[string][]byte, []string) {
 			// file body: from the package clause to the end, with rewrites
 			body := rw.renderRange(f, start, len(src))
 			b.WriteString(body)
+			lost := false
+			for _, ran := range rw.sinks {
+				if !*ran {
+					lost = true
+				}
+			}
+			if lost {
+				notes = append(notes, fmt.Sprintf("struct/loop normalisation of %s abandoned: a moved statement was not rendered", path))
+				continue
+			}
 			res, err := format.Source(b.Bytes())
 			if err != nil {
 				notes = append(notes, fmt.Sprintf("struct/loop normalisation of %s abandoned: %v", path, err))
@@ -270,10 +284,8 @@ func (rw *rewriter) isNewStruct(t types.Type) (*types.Struct, bool) {
 		if baselineSet["type|"+o.Pkg().Path()+"|"+o.Name()] {
 			return nil, false
 		}
-		// methods may need the value as a whole
-		if x.NumMethods() > 0 {
-			return nil, false
-		}
+		// (a type with methods is split as well once no method call on the local is
+		// left: the validity check below rejects a local that is still used whole)
 		return st, true
 	case *types.Struct:
 		return st, rw.touched
@@ -306,6 +318,82 @@ func (rw *rewriter) function(fd *ast.FuncDecl) {
 		return true
 	})
 
+	// ---- `p := &x` with x a local and p only ever used as p.f / p.m(): p.f is x.f
+	if rw.touched {
+		declCount := map[string]int{}
+		ast.Inspect(fd, func(n ast.Node) bool {
+			if id, ok := n.(*ast.Ident); ok && info.Defs[id] != nil {
+				declCount[id.Name]++
+			}
+			return true
+		})
+		ast.Inspect(fd.Body, func(n ast.Node) bool {
+			as, ok := n.(*ast.AssignStmt)
+			if !ok || as.Tok != token.DEFINE || len(as.Lhs) != 1 || len(as.Rhs) != 1 || !inListOf(parent, as) {
+				return true
+			}
+			pid, ok := as.Lhs[0].(*ast.Ident)
+			u, isU := ast.Unparen(as.Rhs[0]).(*ast.UnaryExpr)
+			if !ok || !isU || u.Op != token.AND || info.Defs[pid] == nil {
+				return true
+			}
+			xid, isId := ast.Unparen(u.X).(*ast.Ident)
+			if !isId {
+				return true
+			}
+			xv, _ := info.Uses[xid].(*types.Var)
+			if xv == nil || xv.IsField() || xv.Pkg() == nil || xv.Parent() == xv.Pkg().Scope() || declCount[xv.Name()] != 1 {
+				return true
+			}
+			if _, isStruct := xv.Type().Underlying().(*types.Struct); !isStruct {
+				return true
+			}
+			pobj := info.Defs[pid]
+			good := true
+			var uses []*ast.SelectorExpr
+			var blanks []ast.Stmt
+			ast.Inspect(fd.Body, func(m ast.Node) bool {
+				id, isId := m.(*ast.Ident)
+				if !isId || info.Uses[id] != pobj {
+					return true
+				}
+				switch pp := parent[id].(type) {
+				case *ast.SelectorExpr:
+					if pp.X == ast.Expr(id) {
+						uses = append(uses, pp)
+						return true
+					}
+				case *ast.AssignStmt:
+					if len(pp.Lhs) == 1 && len(pp.Rhs) == 1 && pp.Rhs[0] == ast.Expr(id) && inListOf(parent, pp) {
+						if b, isB := pp.Lhs[0].(*ast.Ident); isB && b.Name == "_" {
+							blanks = append(blanks, pp)
+							return true
+						}
+					}
+				}
+				good = false
+				return false
+			})
+			if !good || len(uses) == 0 {
+				return true
+			}
+			name := xv.Name()
+			for _, se := range uses {
+				se := se
+				if rw.gen[se] != nil {
+					return true
+				}
+				rw.gen[se] = func() string { return name + "." + se.Sel.Name }
+			}
+			rw.gen[as] = func() string { return "" }
+			for _, b := range blanks {
+				rw.gen[b] = func() string { return "" }
+			}
+			rw.n++
+			return true
+		})
+	}
+
 	// ---- *&x and (&x).f
 	ast.Inspect(fd.Body, func(n ast.Node) bool {
 		if !rw.touched {
@@ -333,6 +421,152 @@ func (rw *rewriter) function(fd *ast.FuncDecl) {
 		}
 		return true
 	})
+
+	// ---- a method or function value bound once to a local that is only called:
+	// `next := l.NextBinEntry; … next()` is `l.NextBinEntry()` when l is not
+	// reassigned in between (l is a parameter, receiver or single-assignment local)
+	if rw.touched {
+		type mv struct {
+			def   ast.Stmt
+			rhs   ast.Expr
+			calls []*ast.CallExpr
+			blank []ast.Stmt
+			ok    bool
+		}
+		mvs := map[types.Object]*mv{}
+		assignedVars := map[types.Object]int{}
+		ast.Inspect(fd.Body, func(n ast.Node) bool {
+			switch x := n.(type) {
+			case *ast.AssignStmt:
+				for _, l := range x.Lhs {
+					if id, ok := ast.Unparen(l).(*ast.Ident); ok {
+						if o := info.Uses[id]; o != nil {
+							assignedVars[o]++
+						}
+					}
+				}
+			case *ast.IncDecStmt:
+				if id, ok := ast.Unparen(x.X).(*ast.Ident); ok {
+					assignedVars[info.Uses[id]]++
+				}
+			case *ast.UnaryExpr:
+				if id, ok := ast.Unparen(x.X).(*ast.Ident); ok && x.Op == token.AND {
+					assignedVars[info.Uses[id]]++
+				}
+			}
+			return true
+		})
+		ast.Inspect(fd.Body, func(n ast.Node) bool {
+			var defStmt ast.Stmt
+			var id *ast.Ident
+			var rhs0 ast.Expr
+			switch as := n.(type) {
+			case *ast.AssignStmt:
+				if as.Tok != token.DEFINE || len(as.Lhs) != 1 || len(as.Rhs) != 1 || !inListOf(parent, as) {
+					return true
+				}
+				lid, ok := as.Lhs[0].(*ast.Ident)
+				if !ok {
+					return true
+				}
+				defStmt, id, rhs0 = as, lid, as.Rhs[0]
+			case *ast.DeclStmt:
+				// `var check func() error = t.checkVersion` (what unrolling a loop over a
+				// table of method values leaves)
+				gd, ok := as.Decl.(*ast.GenDecl)
+				if !ok || gd.Tok != token.VAR || len(gd.Specs) != 1 || !inListOf(parent, as) {
+					return true
+				}
+				vs, ok := gd.Specs[0].(*ast.ValueSpec)
+				if !ok || len(vs.Names) != 1 || len(vs.Values) != 1 {
+					return true
+				}
+				defStmt, id, rhs0 = as, vs.Names[0], vs.Values[0]
+			default:
+				return true
+			}
+			if info.Defs[id] == nil {
+				return true
+			}
+			rhs := ast.Unparen(rhs0)
+			stable := false
+			switch r := rhs.(type) {
+			case *ast.Ident:
+				_, stable = info.Uses[r].(*types.Func)
+			case *ast.SelectorExpr:
+				if sel, has := info.Selections[r]; has && sel.Kind() == types.MethodVal {
+					// the receiver: an identifier (possibly with field selections) rooted at
+					// something never assigned in this function
+					root := ast.Unparen(r.X)
+					for {
+						if s2, isSel := root.(*ast.SelectorExpr); isSel {
+							root = ast.Unparen(s2.X)
+							continue
+						}
+						break
+					}
+					if rid, isId := root.(*ast.Ident); isId {
+						if o := info.Uses[rid]; o != nil && assignedVars[o] == 0 {
+							if _, isVar := o.(*types.Var); isVar {
+								stable = root == ast.Unparen(r.X) // plain `x.M` only: fields of x may change
+							}
+						}
+					}
+				} else if _, isFunc := info.Uses[r.Sel].(*types.Func); isFunc {
+					if pid, isId := ast.Unparen(r.X).(*ast.Ident); isId {
+						_, stable = info.Uses[pid].(*types.PkgName)
+					}
+				}
+			}
+			if stable {
+				mvs[info.Defs[id]] = &mv{def: defStmt, rhs: rhs0, ok: true}
+			}
+			return true
+		})
+		if len(mvs) > 0 {
+			ast.Inspect(fd.Body, func(n ast.Node) bool {
+				id, ok := n.(*ast.Ident)
+				if !ok {
+					return true
+				}
+				m := mvs[info.Uses[id]]
+				if m == nil {
+					return true
+				}
+				if call, isCall := parent[id].(*ast.CallExpr); isCall && ast.Unparen(call.Fun) == ast.Expr(id) {
+					if _, inGo := parent[call].(*ast.GoStmt); !inGo {
+						if _, inDefer := parent[call].(*ast.DeferStmt); !inDefer {
+							m.calls = append(m.calls, call)
+							return true
+						}
+					}
+				}
+				if as, isAs := parent[id].(*ast.AssignStmt); isAs && len(as.Lhs) == 1 && len(as.Rhs) == 1 && as.Rhs[0] == ast.Expr(id) {
+					if b, isB := as.Lhs[0].(*ast.Ident); isB && b.Name == "_" && inListOf(parent, as) {
+						m.blank = append(m.blank, as)
+						return true
+					}
+				}
+				m.ok = false
+				return true
+			})
+			for o, m := range mvs {
+				if !m.ok || len(m.calls) == 0 || assignedVars[o] > 0 {
+					continue
+				}
+				m := m
+				rw.gen[m.def] = func() string { return "" }
+				for _, b := range m.blank {
+					rw.gen[b] = func() string { return "" }
+				}
+				for _, call := range m.calls {
+					fun := call.Fun
+					rw.gen[fun] = func() string { return rw.text(m.rhs) }
+				}
+				rw.n++
+			}
+		}
+	}
 
 	// ---- a function literal called in place becomes a closure bound to a local
 	// and a call of it (the next expansion round then treats it like any closure):
@@ -493,6 +727,7 @@ func (rw *rewriter) function(fd *ast.FuncDecl) {
 	// ---- if statements whose condition is decided by constants (`x || true`
 	// left behind by a helper called with a constant flag)
 	if rw.touched {
+		rw.flowRewrites(fd, parent)
 		var pure func(e ast.Expr) bool
 		pure = func(e ast.Expr) bool {
 			ok := true
@@ -592,8 +827,82 @@ func (rw *rewriter) function(fd *ast.FuncDecl) {
 					}
 				}
 			}
-			if declares || len(blk.List) == 0 {
-				return true
+			if declares && len(blk.List) > 0 {
+				// the last statement of its list: what it declares can live in the enclosing
+				// scope when no name of that scope is declared a second time
+				var list []ast.Stmt
+				switch pp := parent[blk].(type) {
+				case *ast.BlockStmt:
+					if pp != fd.Body && inListOf(parent, pp) {
+						return true // a bare block that may be spliced itself this round: decided in the next
+					}
+					list = pp.List
+				case *ast.CaseClause:
+					list = pp.Body
+				case *ast.CommClause:
+					list = pp.Body
+				}
+				if len(list) == 0 || list[len(list)-1] != ast.Stmt(blk) {
+					return true
+				}
+				declared := func(l []ast.Stmt, into map[string]bool) bool {
+					for _, st := range l {
+						switch y := st.(type) {
+						case *ast.LabeledStmt:
+							return false
+						case *ast.DeclStmt:
+							gd, isGen := y.Decl.(*ast.GenDecl)
+							if !isGen {
+								return false
+							}
+							for _, sp := range gd.Specs {
+								switch z := sp.(type) {
+								case *ast.ValueSpec:
+									for _, nm := range z.Names {
+										into[nm.Name] = true
+									}
+								case *ast.TypeSpec:
+									into[z.Name.Name] = true
+								}
+							}
+						case *ast.AssignStmt:
+							if y.Tok == token.DEFINE {
+								for _, l := range y.Lhs {
+									if id, isId := l.(*ast.Ident); isId && info.Defs[id] != nil {
+										into[id.Name] = true
+									}
+								}
+							}
+						}
+					}
+					return true
+				}
+				inner, outer := map[string]bool{}, map[string]bool{}
+				if !declared(blk.List, inner) || !declared(list[:len(list)-1], outer) {
+					return true
+				}
+				if parent[blk] == ast.Node(fd.Body) {
+					for _, fl := range []*ast.FieldList{fd.Recv, fd.Type.Params, fd.Type.Results} {
+						if fl != nil {
+							for _, f := range fl.List {
+								for _, nm := range f.Names {
+									outer[nm.Name] = true
+								}
+							}
+						}
+					}
+				}
+				for nm := range inner {
+					if outer[nm] && nm != "_" {
+						return true
+					}
+				}
+				// (a `:=` of the block that re-uses one of its own earlier names keeps working;
+				// one that would now re-use a name of the enclosing list was excluded above)
+				declares = false
+			}
+			if declares || len(blk.List) == 0 || rw.gen[blk] != nil {
+				return true // (a block another rewrite of this round works on is left to the next round)
 			}
 			rw.gen[blk] = func() string {
 				var b strings.Builder
@@ -606,9 +915,95 @@ func (rw *rewriter) function(fd *ast.FuncDecl) {
 			rw.n++
 			return true
 		})
+		// a switch without a tag is the if / else-if chain of its cases (no fallthrough,
+		// no break that leaves the switch)
+		ast.Inspect(fd.Body, func(n ast.Node) bool {
+			sw, ok := n.(*ast.SwitchStmt)
+			if !ok || sw.Tag != nil || sw.Init != nil || !inListOf(parent, sw) || len(sw.Body.List) == 0 || rw.gen[sw] != nil {
+				return true
+			}
+			if _, labelled := parent[sw].(*ast.LabeledStmt); labelled {
+				return true
+			}
+			plain := true
+			var leaves func(n ast.Node, inner bool)
+			leaves = func(n ast.Node, inner bool) {
+				ast.Inspect(n, func(m ast.Node) bool {
+					if !plain {
+						return false
+					}
+					switch y := m.(type) {
+					case *ast.FuncLit:
+						return false
+					case *ast.ForStmt, *ast.RangeStmt, *ast.SwitchStmt, *ast.TypeSwitchStmt, *ast.SelectStmt:
+						if m != n {
+							if !inner {
+								leaves(m, true)
+							}
+							return false
+						}
+					case *ast.BranchStmt:
+						if y.Tok == token.FALLTHROUGH && !inner {
+							plain = false
+						}
+						if y.Tok == token.BREAK && y.Label == nil && !inner {
+							plain = false
+						}
+					}
+					return true
+				})
+			}
+			var deflt *ast.CaseClause
+			var cases []*ast.CaseClause
+			for _, st := range sw.Body.List {
+				cc := st.(*ast.CaseClause)
+				for _, b := range cc.Body {
+					leaves(b, false)
+				}
+				if cc.List == nil {
+					deflt = cc
+				} else {
+					cases = append(cases, cc)
+				}
+			}
+			if !plain || len(cases) == 0 {
+				return true
+			}
+			rw.gen[sw] = func() string {
+				var b strings.Builder
+				for i, cc := range cases {
+					if i > 0 {
+						b.WriteString(" else ")
+					}
+					var conds []string
+					for _, e := range cc.List {
+						t := rw.text(e)
+						if len(cc.List) > 1 {
+							t = "(" + t + ")"
+						}
+						conds = append(conds, t)
+					}
+					b.WriteString("if " + strings.Join(conds, " || ") + " {\n")
+					for _, st := range cc.Body {
+						b.WriteString(rw.text(st) + "\n")
+					}
+					b.WriteString("}")
+				}
+				if deflt != nil {
+					b.WriteString(" else {\n")
+					for _, st := range deflt.Body {
+						b.WriteString(rw.text(st) + "\n")
+					}
+					b.WriteString("}")
+				}
+				return b.String()
+			}
+			rw.n++
+			return true
+		})
 		ast.Inspect(fd.Body, func(n ast.Node) bool {
 			ifs, ok := n.(*ast.IfStmt)
-			if !ok || ifs.Init != nil || !inListOf(parent, ifs) {
+			if !ok || ifs.Init != nil || !inListOf(parent, ifs) || rw.gen[ifs] != nil {
 				return true
 			}
 			v, known := decide(ifs.Cond)
@@ -629,11 +1024,21 @@ func (rw *rewriter) function(fd *ast.FuncDecl) {
 
 	// ---- struct locals
 	type cand struct {
-		v      *types.Var
-		st     *types.Struct
-		fields []string
-		ok     bool
+		v       *types.Var
+		st      *types.Struct
+		fields  []string
+		ok      bool
+		defs    int
+		nilDecl bool       // `var p *T` without a value
+		alias   *cand      // the local whose field variables this one shares (its object was handed over by `alias = this`)
+		ptr     bool       // the local is a pointer to the struct (defined once by &T{…})
+		elem    types.Type // the struct type
 	}
+	type aliasRq struct {
+		to, from *types.Var
+		at       *ast.AssignStmt
+	}
+	var aliasReq []aliasRq
 	cands := map[*types.Var]*cand{}
 	var deps [][2]*types.Var // whole-value copies between candidates: both or neither
 	blankUses := map[*types.Var][]ast.Stmt{}
@@ -660,8 +1065,14 @@ func (rw *rewriter) function(fd *ast.FuncDecl) {
 		if v == nil || cands[v] != nil {
 			return true
 		}
-		if st, isNew := rw.isNewStruct(v.Type()); isNew {
-			c := &cand{v: v, st: st, ok: true}
+		vt := v.Type()
+		isPtr := false
+		if pt, ok := vt.(*types.Pointer); ok {
+			// p := &T{…} that is never reassigned and only used through p.f
+			vt, isPtr = pt.Elem(), true
+		}
+		if st, isNew := rw.isNewStruct(vt); isNew {
+			c := &cand{v: v, st: st, ok: true, ptr: isPtr, elem: vt}
 			for i := 0; i < st.NumFields(); i++ {
 				if st.Field(i).Embedded() {
 					c.ok = false
@@ -686,8 +1097,16 @@ func (rw *rewriter) function(fd *ast.FuncDecl) {
 		return false
 	}
 	isLitOf := func(e ast.Expr, c *cand) *ast.CompositeLit {
-		cl, ok := ast.Unparen(e).(*ast.CompositeLit)
-		if !ok || !types.Identical(info.TypeOf(cl), c.v.Type()) {
+		e = ast.Unparen(e)
+		if c.ptr {
+			u, isU := e.(*ast.UnaryExpr)
+			if !isU || u.Op != token.AND {
+				return nil
+			}
+			e = ast.Unparen(u.X)
+		}
+		cl, ok := e.(*ast.CompositeLit)
+		if !ok || !types.Identical(info.TypeOf(cl), c.elem) {
 			return nil
 		}
 		keyed := false
@@ -744,6 +1163,14 @@ func (rw *rewriter) function(fd *ast.FuncDecl) {
 					}
 					if lid, isId := pp.Lhs[i].(*ast.Ident); isId {
 						if lv := localOf(lid); lv != nil && cands[lv] != nil && types.Identical(lv.Type(), v.Type()) {
+							if c.ptr {
+								// `sc = s`: the one object gets a second name (decided below)
+								if pp.Tok != token.ASSIGN || len(pp.Lhs) != 1 {
+									c.ok = false
+									return true
+								}
+								aliasReq = append(aliasReq, aliasRq{lv, v, pp})
+							}
 							deps = append(deps, [2]*types.Var{lv, v})
 							return true
 						}
@@ -753,6 +1180,26 @@ func (rw *rewriter) function(fd *ast.FuncDecl) {
 			if idx < 0 || len(pp.Lhs) != len(pp.Rhs) || !inList(pp) || (pp.Tok != token.ASSIGN && pp.Tok != token.DEFINE) {
 				c.ok = false
 				return true
+			}
+			if c.ptr {
+				// a pointer local stands for one object: defined once, by a literal (or,
+				// declared without a value, by taking over another such local's object)
+				c.defs++
+				if c.defs > 1 {
+					c.ok = false
+					return true
+				}
+				if isLitOf(pp.Rhs[idx], c) == nil {
+					rid, isId := ast.Unparen(pp.Rhs[idx]).(*ast.Ident)
+					var rv *types.Var
+					if isId {
+						rv = localOf(rid)
+					}
+					if rv == nil || cands[rv] == nil || !cands[rv].ptr || !types.Identical(rv.Type(), v.Type()) || pp.Tok != token.ASSIGN || len(pp.Lhs) != 1 {
+						c.ok = false
+					}
+					return true
+				}
 			}
 			if isLitOf(pp.Rhs[idx], c) == nil {
 				rid, isId := ast.Unparen(pp.Rhs[idx]).(*ast.Ident)
@@ -782,6 +1229,17 @@ func (rw *rewriter) function(fd *ast.FuncDecl) {
 				c.ok = false
 				return true
 			}
+			if c.ptr {
+				if len(pp.Values) == 0 {
+					c.nilDecl = true
+				} else {
+					c.defs++
+				}
+				if c.defs > 1 || len(pp.Values) > 1 {
+					c.ok = false
+					return true
+				}
+			}
 			if len(pp.Values) == 1 {
 				if isLitOf(pp.Values[0], c) == nil {
 					c.ok = false
@@ -802,6 +1260,51 @@ func (rw *rewriter) function(fd *ast.FuncDecl) {
 		}
 		return true
 	})
+	// one object under two names: `var sc *T; { s := &T{…}; …; sc = s }` with s not used
+	// afterwards - s shares sc's field variables
+	for _, rq := range aliasReq {
+		to, from := cands[rq.to], cands[rq.from]
+		if to == nil || from == nil {
+			continue
+		}
+		good := to.ok && from.ok && to.nilDecl && to.defs == 1 && from.defs == 1 && !from.nilDecl && from.alias == nil && to.alias == nil
+		var fromDef ast.Stmt
+		if good {
+			ast.Inspect(fd.Body, func(n ast.Node) bool {
+				id, isId := n.(*ast.Ident)
+				if !isId {
+					return true
+				}
+				if info.Uses[id] == types.Object(rq.from) && id.Pos() > rq.at.End() {
+					good = false // still used under its own name after the hand-over
+				}
+				if info.Defs[id] == types.Object(rq.from) {
+					switch d := parent[id].(type) {
+					case *ast.AssignStmt:
+						if len(d.Lhs) == 1 {
+							fromDef = d
+						}
+					case *ast.ValueSpec:
+						if ds, isDecl := parent[parent[d]].(*ast.DeclStmt); isDecl {
+							fromDef = ds
+						}
+					}
+				}
+				if info.Defs[id] == types.Object(rq.to) && fromDef != nil {
+					good = false // sc must be declared before s is
+				}
+				return true
+			})
+		}
+		if good && (fromDef == nil || parent[fromDef] != parent[rq.at]) {
+			good = false
+		}
+		if good {
+			from.alias = to
+		} else {
+			to.ok, from.ok = false, false
+		}
+	}
 	for changed := true; changed; {
 		changed = false
 		for _, d := range deps {
@@ -815,7 +1318,12 @@ func (rw *rewriter) function(fd *ast.FuncDecl) {
 			}
 		}
 	}
-	fieldName := func(c *cand, f string) string { return c.v.Name() + "_" + f }
+	fieldName := func(c *cand, f string) string {
+		if c.alias != nil {
+			c = c.alias
+		}
+		return c.v.Name() + "_" + f
+	}
 	// the type of field i as source text valid in this file
 	fieldType := func(c *cand, i int) (string, bool) {
 		q := func(pk *types.Package) string {
@@ -837,6 +1345,21 @@ func (rw *rewriter) function(fd *ast.FuncDecl) {
 		return s, !strings.Contains(s, "\x00")
 	}
 	litValues := func(c *cand, cl *ast.CompositeLit) ([]string, bool) {
+		// a constant element keeps the field's type once it initialises a variable of
+		// its own (`lastdb: 0` of a uint32 field must not become an int)
+		typedConst := func(j int, v ast.Expr, txt string) string {
+			tv, has := info.Types[v]
+			if !has || tv.Value == nil {
+				return txt
+			}
+			if _, basic := c.st.Field(j).Type().Underlying().(*types.Basic); !basic {
+				return txt
+			}
+			if ts, ok := fieldType(c, j); ok {
+				return ts + "(" + txt + ")"
+			}
+			return txt
+		}
 		vals := make([]string, len(c.fields))
 		set := make([]bool, len(c.fields))
 		for i, el := range cl.Elts {
@@ -849,7 +1372,7 @@ func (rw *rewriter) function(fd *ast.FuncDecl) {
 				for j, f := range c.fields {
 					if f == k.Name {
 						v := kv.Value
-						vals[j] = rw.text(v)
+						vals[j] = typedConst(j, v, rw.text(v))
 						set[j] = true
 						found = true
 					}
@@ -858,7 +1381,7 @@ func (rw *rewriter) function(fd *ast.FuncDecl) {
 					return nil, false
 				}
 			} else {
-				vals[i] = rw.text(el)
+				vals[i] = typedConst(i, el, rw.text(el))
 				set[i] = true
 			}
 		}
@@ -868,7 +1391,7 @@ func (rw *rewriter) function(fd *ast.FuncDecl) {
 				if !ok {
 					return nil, false
 				}
-				vals[j] = "*new(" + ts + ")"
+				vals[j] = zeroLiteral(c.st.Field(j).Type(), ts)
 			}
 		}
 		return vals, true
@@ -913,10 +1436,14 @@ func (rw *rewriter) function(fd *ast.FuncDecl) {
 					var b strings.Builder
 					var vals []string
 					if len(vs.Values) == 1 {
-						vals, _ = litValues(c, ast.Unparen(vs.Values[0]).(*ast.CompositeLit))
+						vals, _ = litValues(c, isLitOf(vs.Values[0], c))
 					}
 					for i, f := range c.fields {
 						ts, _ := fieldType(c, i)
+						if c.alias != nil && vals != nil {
+							fmt.Fprintf(&b, "%s = %s\n", fieldName(c, f), vals[i]) // the variables exist already
+							continue
+						}
 						if vals != nil {
 							fmt.Fprintf(&b, "var %s %s = %s\n", fieldName(c, f), ts, vals[i])
 						} else {
@@ -959,7 +1486,7 @@ func (rw *rewriter) function(fd *ast.FuncDecl) {
 						}
 						var vals []string
 						ok := false
-						if cl, isCl := ast.Unparen(x.Rhs[i]).(*ast.CompositeLit); isCl {
+						if cl := isLitOf(x.Rhs[i], cc); cl != nil {
 							vals, ok = litValues(cc, cl)
 						} else if rid, isId := ast.Unparen(x.Rhs[i]).(*ast.Ident); isId {
 							if rv := localOf(rid); rv != nil && cands[rv] != nil && cands[rv].ok {
@@ -977,12 +1504,27 @@ func (rw *rewriter) function(fd *ast.FuncDecl) {
 						for j, f := range cc.fields {
 							lhs = append(lhs, fieldName(cc, f))
 							rhs = append(rhs, vals[j])
-							if x.Tok == token.DEFINE {
+							if x.Tok == token.DEFINE && cc.alias == nil {
 								fmt.Fprintf(&tail, "\n_ = %s", fieldName(cc, f))
 							}
 						}
 					}
-					return strings.Join(lhs, ", ") + " " + x.Tok.String() + " " + strings.Join(rhs, ", ") + tail.String()
+					same := len(lhs) == len(rhs)
+					for i := range lhs {
+						if same && lhs[i] != rhs[i] {
+							same = false
+						}
+					}
+					if same && x.Tok == token.ASSIGN {
+						return "" // the hand-over of an object whose field variables are shared
+					}
+					tok := x.Tok
+					if tok == token.DEFINE && len(x.Lhs) == 1 {
+						if cc := cands[localOf(x.Lhs[0].(*ast.Ident))]; cc != nil && cc.ok && cc.alias != nil {
+							tok = token.ASSIGN // the variables exist already
+						}
+					}
+					return strings.Join(lhs, ", ") + " " + tok.String() + " " + strings.Join(rhs, ", ") + tail.String()
 				}
 				planned++
 			}
@@ -1130,6 +1672,24 @@ func (rw *rewriter) function(fd *ast.FuncDecl) {
 		rw.n++
 		return true
 	})
+}
+
+// zeroLiteral spells the zero value of t (ts is t as source text).
+func zeroLiteral(t types.Type, ts string) string {
+	switch u := t.Underlying().(type) {
+	case *types.Basic:
+		switch {
+		case u.Info()&types.IsBoolean != 0:
+			return ts + "(false)"
+		case u.Info()&types.IsNumeric != 0:
+			return ts + "(0)"
+		case u.Info()&types.IsString != 0:
+			return ts + `("")`
+		}
+	case *types.Pointer, *types.Slice, *types.Map, *types.Chan, *types.Signature, *types.Interface:
+		return "(" + ts + ")(nil)"
+	}
+	return "*new(" + ts + ")"
 }
 
 // paren wraps text in parentheses unless e is an identifier or a selector chain.
